@@ -570,6 +570,52 @@ func ForkAtTheEdgeShapes() []*prog.Program {
 
 func sig(ref string) []prog.EvDef { return []prog.EvDef{{K: "signal", Ref: ref}} }
 
+// ThrowShapes: intermediate throw events next to catch events -- one reached late (behind a
+// task), one on a branch never taken: events handed to the instance meanwhile must not wait for
+// a node no token has reached.
+func ThrowShapes() []*prog.Program {
+	var out []*prog.Program
+	{
+		b := prog.NewBuilder("throw_late")
+		s := b.AddNode("start", "")
+		t := b.AddNode("task", "")
+		h := b.AddNode("throw", "")
+		b.N(h).Evs = sig("Z")
+		c := b.AddNode("catch", "")
+		b.N(c).Evs = sig("A")
+		u := b.AddNode("task", "")
+		e := b.AddNode("end", "")
+		b.Connect(s, t, prog.Cond{})
+		b.Connect(t, h, prog.Cond{})
+		b.Connect(h, c, prog.Cond{})
+		b.Connect(c, u, prog.Cond{})
+		b.Connect(u, e, prog.Cond{})
+		b.P.Tags = append(b.P.Tags, "catch", "throw", "throw-late")
+		out = append(out, b.Done())
+	}
+	{
+		b := prog.NewBuilder("throw_untaken")
+		s := b.AddNode("start", "")
+		x := b.AddNode("xor", "")
+		h := b.AddNode("throw", "")
+		b.N(h).Evs = sig("Z")
+		e0 := b.AddNode("end", "")
+		c := b.AddNode("catch", "")
+		b.N(c).Evs = sig("A")
+		u := b.AddNode("task", "")
+		e := b.AddNode("end", "")
+		b.Connect(s, x, prog.Cond{})
+		b.Connect(x, h, prog.Cond{K: "false"})
+		b.Connect(h, e0, prog.Cond{})
+		b.N(x).Default = b.Connect(x, c, prog.Cond{})
+		b.Connect(c, u, prog.Cond{})
+		b.Connect(u, e, prog.Cond{})
+		b.P.Tags = append(b.P.Tags, "catch", "throw", "throw-untaken", "xor")
+		out = append(out, b.Done())
+	}
+	return out
+}
+
 // CatchShapes: the C11 corpus: 1..3 catch events in sequence and in parallel,
 // one on a branch never taken, one behind a task (armed late), signal and
 // message events.
